@@ -1167,4 +1167,155 @@ Section Pool.
     - inversion H; subst; auto.
     - destruct (pstep s l) as [s1|] eqn:E; [|discriminate]. eapply IH; [|exact H]. eapply preach_step; eauto.
   Qed.
+
+  (* ---- enabledness of the individual steps *)
+  Lemma E_acquire : forall s t th o rest, nth_error (threads (mon s)) t = Some th -> st th = Idle ->
+    prog th = o :: rest -> owner (mon s) = None -> exists s', pstep s (LMon (LAcquire t)) = Some s'.
+  Proof.
+    intros s t th o rest Hn Hs Hp Ho. cbn. unfold mon_step. cbn. rewrite Hn, Ho, Hs, Hp. eauto.
+  Qed.
+
+  Lemma E_body : forall s t th o rest, nth_error (threads (mon s)) t = Some th -> st th = InCS ->
+    prog th = o :: rest -> exists s', pstep s (LMon (LBody t [])) = Some s'.
+  Proof.
+    intros s t th o rest Hn Hs Hp. cbn. unfold mon_step. cbn [step]. rewrite Hn, Hs, Hp.
+    destruct (B o (shared (mon s))); destruct (ret_of maxq (mon s) t) as [[o' r']|]; eauto.
+  Qed.
+
+  Lemma E_reacquire : forall s t th, nth_error (threads (mon s)) t = Some th -> st th = Signalled ->
+    owner (mon s) = None -> exists s', pstep s (LMon (LReacquire t)) = Some s'.
+  Proof.
+    intros s t th Hn Hs Ho. cbn. unfold mon_step. cbn. rewrite Hn, Ho, Hs. eauto.
+  Qed.
+
+  Lemma E_call : forall s t th o p, nth_error (threads (mon s)) t = Some th -> st th = Idle ->
+    exists s', call t o p s = Some s'.
+  Proof. intros s t th o p Hn Hs. unfold call, set_prog. rewrite Hn, Hs. eauto. Qed.
+
+  Definition movable (s : psys) (t : nat) : Prop :=
+    exists l s', label_thread l = t /\ p_is_spurious l = false /\ pstep s l = Some s'.
+
+  Lemma thread_moves : forall s t p th, coh s -> wf _ _ _ (mon s) -> owner (mon s) = None ->
+    nth_error (pcs s) t = Some p -> nth_error (threads (mon s)) t = Some th ->
+    (exists c, st th = Waiting c) \/ p = WDone \/ p = CIdle [] \/
+    (exists i ops, p = CJoin i ops /\ i < nw /\ pc_at s i <> Some WDone) \/ movable s t.
+  Proof.
+    intros s t p th C W Ho Hp Hn. destruct C as (Hlen & Hc). pose proof (Hc _ _ _ Hp Hn) as Hc1.
+    assert (Hsec : forall o rest, prog th = o :: rest -> (exists c, st th = Waiting c) \/ movable s t).
+    { intros o rest Hq. destruct (st th) eqn:Hs.
+      - right. destruct (E_acquire s t th o rest Hn Hs Hq Ho) as (s' & E). exists (LMon (LAcquire t)), s'. auto.
+      - exfalso. rewrite (wf_incs _ _ _ _ W _ _ Hn Hs) in Ho. discriminate.
+      - left. eauto.
+      - right. destruct (E_reacquire s t th Hn Hs Ho) as (s' & E). exists (LMon (LReacquire t)), s'. auto. }
+    destruct p as [| |k| |[|uo ops]|ops|ops|i ops]; cbn in Hc1; auto.
+    - (* WLoop *) right; right; right; right. destruct Hc1 as (_ & Hs & _).
+      exists (LLoad t). cbn [label_thread p_is_spurious C15_Model.pstep]. unfold pc_at. rewrite Hp.
+      destruct (running (shared (mon s))).
+      + destruct (E_call s t th PTake WTake Hn Hs) as (s' & E). rewrite E. eauto.
+      + eauto.
+    - (* WTake *) destruct Hc1 as (_ & Hq). destruct (Hsec _ _ Hq) as [H|H]; auto 6.
+    - (* WGot *) right; right; right; right. exists (LExec t). cbn [label_thread p_is_spurious C15_Model.pstep]. unfold pc_at. rewrite Hp. eauto.
+    - (* CIdle (uo :: ops) *) right; right; right; right. destruct Hc1 as (_ & Hs & _).
+      exists (LNext t). cbn [label_thread p_is_spurious C15_Model.pstep]. unfold pc_at. rewrite Hp. destruct uo as [k| |].
+      + destruct (Nat.eqb nw 0); [eauto|]. destruct (E_call s t th (PRun k) (CCall ops) Hn Hs) as (s' & E). rewrite E. eauto.
+      + destruct (E_call s t th PStop (CStopping ops) Hn Hs) as (s' & E). rewrite E. eauto.
+      + destruct (E_call s t th PSize (CCall ops) Hn Hs) as (s' & E). rewrite E. eauto.
+    - (* CCall *) destruct Hc1 as (_ & o & Hq & _). destruct (Hsec _ _ Hq) as [H|H]; auto 6.
+    - (* CStopping *) destruct Hc1 as (_ & Hq). destruct (Hsec _ _ Hq) as [H|H]; auto 6.
+    - (* CJoin *) destruct (Nat.lt_ge_cases i nw) as [Hlt|Hge].
+      + destruct (pc_at s i) as [pi|] eqn:Ei.
+        * destruct pi; try (right; right; right; left; exists i, ops; repeat split; auto; congruence).
+          right; right; right; right. exists (LJoin t). cbn [label_thread p_is_spurious C15_Model.pstep]. unfold pc_at in *. rewrite Hp.
+          apply Nat.ltb_lt in Hlt. rewrite Hlt, Ei. cbn. eauto.
+        * right; right; right; left. exists i, ops. repeat split; auto. congruence.
+      + right; right; right; right. exists (LJoin t). cbn [label_thread p_is_spurious C15_Model.pstep]. unfold pc_at. rewrite Hp.
+        apply Nat.ltb_ge in Hge. rewrite Hge. eauto.
+  Qed.
+
+  Lemma waiting_cond : forall s t p th c, coh s -> MInv (mon s) ->
+    nth_error (pcs s) t = Some p -> nth_error (threads (mon s)) t = Some th -> st th = Waiting c ->
+    (p = WTake /\ c = notEmpty) \/ (exists ops, p = CCall ops /\ c = notFull).
+  Proof.
+    intros s t p th c (_ & Hc) I Hp Hn Hs. pose proof (Hc _ _ _ Hp Hn) as Hc1.
+    destruct (Forall_nth_error _ _ _ _ (mi_wok _ I) Hn c Hs) as (o & rest & Hq & Hb).
+    destruct p; cbn in Hc1; try (destruct Hc1 as (_ & Hi & _); congruence).
+    - destruct Hc1 as (_ & Hq'). rewrite Hq in Hq'. inversion Hq'; subst. cbn in Hb. apply Nat.eqb_eq in Hb. auto.
+    - destruct Hc1 as (_ & o' & Hq' & [->|(_ & k & ->)]); rewrite Hq in Hq'; inversion Hq'; subst; cbn in Hb; [discriminate|].
+      apply Nat.eqb_eq in Hb. eauto.
+    - destruct Hc1 as (_ & Hq'). rewrite Hq in Hq'. inversion Hq'; subst. discriminate.
+  Qed.
+
+  Theorem quiescent_shape_gen : forall s, coh s -> MInv (mon s) -> SInv s -> nw <= length (pcs s) ->
+    pquiescent nw maxq s ->
+    forall t p th, nth_error (pcs s) t = Some p -> nth_error (threads (mon s)) t = Some th ->
+      p = WDone \/ p = CIdle [] \/
+      (p = WTake /\ st th = Waiting notEmpty /\ queue (shared (mon s)) = [] /\ running (shared (mon s)) = true) \/
+      (exists ops, p = CCall ops /\ st th = Waiting notFull /\ isFull maxq (queue (shared (mon s))) = true /\
+                   running (shared (mon s)) = true).
+  Proof.
+    intros s C I SI Hnw Q.
+    assert (Hnm : forall u, ~ movable s u).
+    { intros u (l & s' & _ & Hl & Hst). rewrite (Q _ _ Hst) in Hl. discriminate. }
+    pose proof (mi_wf _ I) as W.
+    assert (Ho : owner (mon s) = None).
+    { destruct (owner (mon s)) as [u|] eqn:Ho; auto. exfalso.
+      destruct (wf_owner _ _ _ _ W _ Ho) as (th & Hn & Hs).
+      pose proof (Forall_nth_error _ _ _ _ (wf_busy _ _ _ _ W) Hn) as Hb.
+      destruct (prog th) as [|o rest] eqn:Hq; [apply Hb; [congruence|auto]|].
+      destruct (E_body s u th o rest Hn Hs Hq) as (s' & E). apply (Hnm u). exists (LMon (LBody u [])), s'. auto. }
+    (* a waiting thread waits on a pool condition, and then the pool is running *)
+    assert (Hwait : forall u p th c, nth_error (pcs s) u = Some p -> nth_error (threads (mon s)) u = Some th ->
+              st th = Waiting c -> (c = notEmpty \/ c = notFull) /\ running (shared (mon s)) = true).
+    { intros u p th c Hp Hn Hs. destruct (waiting_cond _ _ _ _ _ C I Hp Hn Hs) as [(_ & ->)|(ops & _ & ->)].
+      - split; auto. apply (mi_bE _ I). eapply count_pos_nth; eauto. apply is_waiting_true; auto.
+      - split; auto. apply (mi_bF _ I). eapply count_pos_nth; eauto. apply is_waiting_true; auto. }
+    (* every thread is Idle or Waiting *)
+    assert (Hst : forall u p th, nth_error (pcs s) u = Some p -> nth_error (threads (mon s)) u = Some th ->
+              st th = Idle \/ exists c, st th = Waiting c).
+    { intros u p th Hp Hn. destruct (st th) eqn:Hs; eauto.
+      - exfalso. rewrite (wf_incs _ _ _ _ W _ _ Hn Hs) in Ho. discriminate.
+      - exfalso. destruct (E_reacquire s u th Hn Hs Ho) as (s' & E). apply (Hnm u). exists (LMon (LReacquire u)), s'. auto. }
+    assert (Hcl : forall c, nclients _ _ _ pool_blocker c (mon s) = 0).
+    { intros c. apply count_zero_Forall. apply Forall_forall. intros th Hin.
+      destruct (In_nth_error _ _ Hin) as (u & Hn).
+      destruct (nth_error (pcs s) u) as [p|] eqn:Hp.
+      - destruct (Hst _ _ _ Hp Hn) as [Hs|(c' & Hs)]; unfold wants; rewrite Hs; reflexivity.
+      - exfalso. apply nth_error_None in Hp. destruct C as (Hlen & _).
+        assert (nth_error (threads (mon s)) u <> None) as Hx by congruence. apply nth_error_Some in Hx. lia. }
+    intros t p th Hp Hn.
+    destruct (thread_moves _ _ _ _ C W Ho Hp Hn) as [(c & Hs)|[->|[->|[(i & ops & -> & Hlt & Hnd)|Hm]]]]; auto.
+    - (* waiting: the disciplines *)
+      destruct (Hwait _ _ _ _ Hp Hn Hs) as (_ & Hr).
+      assert (Hpos : nwaiting c (mon s) > 0) by (eapply count_pos_nth; eauto; apply is_waiting_true; auto).
+      destruct (waiting_cond _ _ _ _ _ C I Hp Hn Hs) as [(-> & ->)|(ops & -> & ->)].
+      + right; right; left. repeat split; auto.
+        pose proof (mi_dE _ I Hpos) as Hd. rewrite Hcl in Hd. unfold availE in Hd. rewrite Hr in Hd.
+        apply length_zero_iff_nil. lia.
+      + right; right; right. exists ops. repeat split; auto.
+        pose proof (mi_dF _ I Hpos) as Hd. rewrite Hcl in Hd. unfold availF in Hd. rewrite Hr in Hd.
+        pose proof (mi_bM _ I Hpos) as Hm. cbv beta in Hm. unfold isFull. apply andb_true_iff. split.
+        * apply Nat.ltb_lt. auto.
+        * apply Nat.leb_le. lia.
+    - (* stop() waiting for a worker that is not done: that worker could move *)
+      exfalso. destruct (si_join _ SI _ _ _ Hp) as (Hrf & _).
+      destruct (nth_error (pcs s) i) as [pi|] eqn:Hpi.
+      2:{ apply nth_error_None in Hpi. lia. }
+      destruct (nth_error (threads (mon s)) i) as [thi|] eqn:Hni.
+      2:{ apply nth_error_None in Hni. destruct C as (Hlen & _). lia. }
+      destruct (thread_moves _ _ _ _ C W Ho Hpi Hni) as [(c & Hs)|[->|[->|[(i' & ops' & -> & _)|Hm]]]].
+      + destruct (Hwait _ _ _ _ Hpi Hni Hs) as (_ & Hr). congruence.
+      + apply Hnd. exact Hpi.
+      + destruct C as (_ & Hc). destruct (Hc _ _ _ Hpi Hni) as (Hge & _). lia.
+      + destruct C as (_ & Hc). destruct (Hc _ _ _ Hpi Hni) as (Hge & _). lia.
+      + exact (Hnm _ Hm).
+    - exfalso. exact (Hnm _ Hm).
+  Qed.
+
+  Lemma len_reach : forall progs s, preach nw maxq (pinit nw progs) s -> nw <= length (pcs s).
+  Proof.
+    intros progs s Hr. assert (coh s /\ nw <= length (pcs s)) as (_ & I); auto. revert s Hr. apply preach_inv.
+    - split; [apply coh_init|]. cbn. rewrite app_length, repeat_length. lia.
+    - intros s l s' _ (C & I) H. split; [eapply coh_step; eauto|].
+      destruct (pstep_hand _ _ _ C H) as [(-> & _)|(t & p & p' & ev & _ & -> & _)]; auto. rewrite upd_length. auto.
+  Qed.
 End Pool.
